@@ -162,6 +162,9 @@ func (f *CFF2) LoadGlyph(glyph tables.GlyphID, coords []tables.Coord) ([]ot.Segm
 		}
 	}
 
+	if int(index) >= len(f.fonts) { // invalid font, with an empty font dict array
+		return nil, ps.PathBounds{}, errGlyph
+	}
 	font := f.fonts[index]
 
 	loader.coords = coords
